@@ -1,2 +1,5 @@
 -- Property files of work group F (import UF.Props.Cxx lines go here).
 import UF.Driver.Ops.GroupF
+import UF.Props.C13
+import UF.Props.C14
+import UF.Props.C19
